@@ -4,7 +4,7 @@
 set -eu
 out=$(readlink -f "$1" 2>/dev/null || echo "$1")
 case "$out" in /*) ;; *) out="$PWD/$out";; esac
-V=/verif
+V=${VERIF_SRC:-/verif}
 export GOFLAGS=-mod=mod GOPROXY=off GOSUMDB=off GOTOOLCHAIN=local
 mkdir -p $V/.work $V/.bin
 W=$(mktemp -d $V/.work/c19.XXXXXX)
